@@ -377,7 +377,7 @@ Lemma text_loop_esc : forall st t i rbuf a,
   text_loop (esc_bytes text_must st i t) O rbuf a = Some (rev rbuf ++ t).
 Proof.
   intros st t. induction t as [ | b r IH ]; intros i rbuf a Hv Hn Hh.
-  - cbn [esc_bytes text_loop]. rewrite app_nil_r. reflexivity.
+  - cbn [esc_bytes text_loop]. rewrite app_nil_r. unfold lrev. rewrite <- rev_alt. reflexivity.
   - cbn [forallb] in Hv. apply andb_true_iff in Hv. destruct Hv as [Hb Hv].
     assert (Hb13 : b <> 13) by (intro; apply Hn; left; congruence).
     assert (Hn' : ~ In 13 r) by (intro; apply Hn; right; assumption).
@@ -417,7 +417,7 @@ Lemma attr_loop_esc : forall q st v i rbuf,
   attr_loop (esc_bytes (attr_must q) st i v) O rbuf = Some (rev rbuf ++ v).
 Proof.
   intros q st v. induction v as [ | b r IH ]; intros i rbuf Hv.
-  - cbn [esc_bytes attr_loop]. rewrite app_nil_r. reflexivity.
+  - cbn [esc_bytes attr_loop]. rewrite app_nil_r. unfold lrev. rewrite <- rev_alt. reflexivity.
   - cbn [forallb] in Hv. apply andb_true_iff in Hv. destruct Hv as [Hb Hv].
     assert (Hres : rev (b :: rbuf) ++ r = rev rbuf ++ b :: r)
       by (cbn [rev]; rewrite <- app_assoc; reflexivity).
